@@ -205,7 +205,10 @@ func (ctx *actorContext) StateChanged(event Message) int {
 	}
 	num := ctx.persistenceState.StateChanged(event)
 	if num >= ctx.persistenceEventThreshold {
+		// 快照请求在当前消息的处理过程中执行，结束后需要还原当前消息及发送者
+		message, sender := ctx.message, ctx.sender
 		ctx.processMessage(ctx.ref, ctx.ref, onPersistenceSnapshot, false)
+		ctx.message, ctx.sender = message, sender
 	}
 	return num
 }
